@@ -621,6 +621,12 @@ func TopicCases() []*Case {
 			out = append(out, &Case{ID: fmt.Sprintf("topic:upsert:%s:%d", name, n), Family: "topics", Coord: "topics|kind=upsert", P: &Program{Files: []*File{f}}})
 		}
 	}
+	// a message named like the message another one generates (Ping -> PingMessage), in both orders
+	for oi, order := range [][]string{{"Ping", "PingMessage"}, {"PingMessage", "Ping"}} {
+		f := file("t/v1", "a")
+		f.Add(&Topic{Name: "Note", Kind: "publish", Messages: []*TopicMsg{{Name: order[0], Fields: []*Field{fld("x", T(TString))}}, {Name: order[1], Fields: []*Field{fld("y", T(TString))}}}})
+		out = append(out, &Case{ID: fmt.Sprintf("topic:publish:message-named-like-generated:%d", oi), Family: "topics", Coord: "topics|kind=publish", P: &Program{Files: []*File{f}}})
+	}
 	// everything in one file, several files in one package
 	f := file("t/v1", "a")
 	f.Add(obj("Foo", fld("x", T(TString))))
